@@ -18,7 +18,7 @@ pub const WRITE_FAULTS: [&str; 7] = ["ENOSPC", "EIO", "EDQUOT", "EINTR", "SHORT1
 
 fn symbol(v: usize) -> Option<Box<QRCode>> {
     let input = content(Family::Ctr, 2, crate::refmodel::cap(v, 1, 2));
-    match subject::build(&input, &Opts { mode: Some(2), ecl: Some(1), version: Some(v as u8), mask: Some(2) }) {
+    match subject::build(&input, &Opts { mode: Some(2), ecl: Some(1), version: Some(v as u8), mask: Some(2), order: 0 }) {
         Outcome::Ok(q) => Some(q),
         _ => None,
     }
